@@ -120,6 +120,16 @@ func (n *zzNeedles) refresh(x *zzExec) {
 			}
 			var skPub, skPriv snacl.SecretKey
 			var ckPub, ckPriv cryptoKey
+			// nothing private may open under a key anybody knows (all zero: a wiped key object)
+			var zeroKey snacl.CryptoKey
+			for _, blob := range [][]byte{vals[string(masterHDPrivName)], vals[string(cryptoPrivKeyName)]} {
+				if len(blob) == 0 {
+					continue
+				}
+				if _, err := zeroKey.Decrypt(blob); err == nil {
+					x.fail("C04", "private-blob-opens-under-zero-key/store", "a private blob of keystore %s decrypts under the all-zero key: its secret is recoverable without any passphrase", zzShort(id))
+				}
+			}
 			pubPass, privPass := append([]byte{}, m.PubPass...), append([]byte{}, m.PrivPass...)
 			if skPub.Unmarshal(vals[string(masterPubKeyName)]) == nil && skPub.DeriveKey(&pubPass) == nil {
 				n.addSecret(skPub.Key[:], "master-key-pub")
